@@ -21,6 +21,36 @@ func init() {
 }
 
 func runC35(c *eng.Ctx) {
+
+	// a master stream that ended leaves a cache that may have missed removals: the locations are dropped after every
+	// connection attempt that returned, before the next master is tried (whose full list must not be merged into them)
+	if fn := c.NeedFunc("weed/wdclient", "(*MasterClient).tryAllMasters"); fn != nil {
+		conn := eng.Find(fn, eng.PlainCallTo("wdclient.MasterClient).tryConnectToMaster"))
+		reset := func(in ssa.Instruction) bool {
+			st, ok := in.(*ssa.Store)
+			if !ok || !eng.IsField(st.Addr, "vidMap.vid2Locations") {
+				return false
+			}
+			_, isMk := st.Val.(*ssa.MakeMap)
+			return isMk
+		}
+		if len(conn) == 0 {
+			c.Undecided("RESET-on-reconnect", eng.FuncName(fn), fn.Pos(), "connection attempts not found")
+		}
+		// from the first attempt of a round, the next round's first attempt is reached only through the reset
+		first := conn[:1]
+		for i, cn := range first {
+			h, body := eng.InnermostLoop(cn.Block())
+			ok := h != nil
+			if ok {
+				hit, _ := eng.Search(eng.After(cn), eng.Is(cn), eng.SearchOpt{Barrier: reset})
+				ok = hit == nil && len(eng.Find(fn, reset)) > 0
+				_ = body
+			}
+			c.Ob("RESET-on-reconnect", fmt.Sprintf("%s locations-dropped-between-masters#%d", eng.FuncName(fn), i), ok, cn.Pos(),
+				"after the connection to one master ended, the cached locations are dropped before the next master of the list is tried")
+		}
+	}
 	P := c.P
 	// ---------------------------------------------------------------- (1) LOCK
 	c.CheckLocks("LOCK-vidmap", &eng.LockSpec{
